@@ -130,10 +130,14 @@ fn gen_helper_prog(rng: &mut Rng, allow_local: bool) -> Plan {
             b.exit();
         }
         let Some(prog) = b.assemble() else { continue };
-        let kind = if rng.chance(1, 3) { Kind::Raw } else { Kind::NoData };
+        // all four VM kinds: each wrapper forwards register_helper / calculators on its own
+        let kind = *rng.pick(&[Kind::NoData, Kind::NoData, Kind::Raw, Kind::Mbuff, Kind::Fixed]);
         let mut c = Case::new(kind, prog, "helpers");
-        if kind == Kind::Raw {
+        if kind != Kind::NoData {
             c.pkt = rng.bytes(16);
+        }
+        if kind == Kind::Mbuff {
+            c.mbuff = vec![0; 16];
         }
         c.helpers = helpers;
         c.calc = calc;
